@@ -25,7 +25,19 @@ def budget(tier):
     return dict(examples=600, shards=4, procs=4)
 
 
+def gen_levels(R, tier):
+    """virtual nodes and order-0 edges inside the fragments of intermediate levels"""
+    from .. import resgen
+    c = resgen.gen_cut_string(R, tier, min_frags=2, with_levels=R.choice([1, 2]), virtual_in_levels=0.5)
+    if c is None or 'virtual_node_inside_a_fragment' not in c['features']:
+        return None
+    return dict(input=c['input'], original=c['two_level'], model=c['model'], multilevel=True, nontrivial=True,
+                features=sorted(set(c['features']) | {'multi_level'}))
+
+
 def gen(R, tier):
+    if R.chance(0.2):
+        return gen_levels(R, tier)
     m, cname = molgen.gen_mol_class(R, big=False)
     owner = molgen.partition(R, m, max_frags=R.choice([1, 2, 3, 5]), min_frags=1)
     feats = {'mol:' + cname}
@@ -104,6 +116,15 @@ def check_membership(cg, fine, ref_counts, templates, what):
 def oracle(case):
     from cgsmiles import MoleculeResolver
     model_g = molgen.model_graph(case['model'])
+    if case.get('multilevel'):
+        r = sut(lambda: MoleculeResolver.from_string(case['input']))
+        fine = None
+        for lv in range(r.resolutions):
+            cg, fine = sut(r.resolve)
+            invariants.check_mapping(cg, fine, r.fragment_dicts[lv], lv == r.resolutions - 1, 'level %d: ' % lv)
+            invariants.check_bonds(cg, fine, r.fragment_dicts[lv], True, lv == r.resolutions - 1, True, 'level %d: ' % lv)
+        check_molecule(fine, model_g, 'multi-level string with virtual nodes inside fragments')
+        return
     cg0, fine0 = sut(resolve, case['original'])
     ref_counts = {}
     m0 = invariants.members_of(cg0, fine0)
